@@ -55,11 +55,11 @@ META = {
         "histories (schedules) executed to the end and compared."
     ),
     "bound": {
-        "quick": "pool of 10 colliding documents (180 operations); bfs to closure (cap depth 8); all histories of length 2 "
-                 "whose first call is a whole-document call with caching on (30 x 180); all 20 interleavings of the 3+3 "
-                 "next() calls of every document pair incl. a document with itself (55 pairs) x caching on/off; "
-                 "all 3- and 4-subsets of a 3x3 grid x 3 boxes_flow",
-        "thorough": "same pool; bfs to closure; all histories of length 3 over the 30 whole-document calls followed by "
+        "quick": "pool of 10 colliding documents (180 operations); bfs over the 60 whole-document operations to closure (cap depth 8); all histories of length 2 "
+                 "whose first call is a whole-document call with caching on and whose second is any operation except single pages with caching off (30 x 120); all 20 interleavings of the 3+3 "
+                 "next() calls of every document pair incl. a document with itself (55 pairs; caching on, for a document with itself also off/off and on/off); "
+                 "all 3- and 4-subsets of a 3x3 grid x 2 boxes_flow",
+        "thorough": "same pool; bfs over all 180 operations to closure; all histories of length 3 over the 30 whole-document calls followed by "
                     "any of the 180 operations at depth 2 and the 30 at depth 3; interleavings as quick; 3-,4-,5-subsets of the grid x 4 boxes_flow",
     },
     "assumptions": [
@@ -228,8 +228,9 @@ def build_pool() -> dict:
     fa1 = _font("FontA", enc("WinAnsiEncoding", [65, N("alpha"), N("beta")]))
     fa2 = _font("FontA", enc(None, [67, N("gamma")]))  # same BaseFont name, other encoding, second object
     pool["diffA"] = _two_pages(
-        {"F1": fa1, "F2": fa2}, _text("F1", 12, 72, 700, b"ABCD \x80") + _text("F2", 12, 72, 650, b"ABCD"),
+        {"F1": fa1, "F2": fa2}, b"/CS0 cs 1 0 0 sc\n" + _text("F1", 12, 72, 700, b"ABCD \x80") + _text("F2", 12, 72, 650, b"ABCD"),
         {"F1": fa2, "F2": fa1}, _text("F1", 12, 72, 700, b"DCBA") + _text("F2", 11, 72, 640, b"AB"),
+        res1_extra=lambda d: {"ColorSpace": {"CS0": N("DeviceRGB")}},  # a named colour space ("plain" uses the name without defining it)
     )
     fb1 = _font("FontA", enc("WinAnsiEncoding", [65, N("delta"), N("epsilon")]))
     fb2 = _font("FontA", enc("MacRomanEncoding", [68, N("zeta")]))
@@ -241,7 +242,7 @@ def build_pool() -> dict:
     pw, ps, ph, pm = _font("FontA", N("WinAnsiEncoding")), _font("FontA"), \
         {"Type": N("Font"), "Subtype": N("Type1"), "BaseFont": N("Helvetica")}, _font("FontC", N("MacRomanEncoding"))
     pool["plain"] = _two_pages(
-        {"F1": pw, "F2": ps}, _text("F1", 12, 72, 700, b"ABCD \x80") + _text("F2", 12, 72, 650, b"ABCD"),
+        {"F1": pw, "F2": ps}, b"/CS0 cs 1 0 0 sc\n" + _text("F1", 12, 72, 700, b"ABCD \x80") + _text("F2", 12, 72, 650, b"ABCD"),
         {"F1": ph, "F2": pm}, _text("F1", 12, 72, 700, b"ABCD") + _text("F2", 11, 72, 640, b"ABCD\x8a"),
     )
     # -- predefined CMaps / shared to-unicode maps
@@ -586,6 +587,11 @@ def _digest_value(v, seen, depth=0) -> bytes:
         return b"-"
     if id(v) in seen or depth > 30:
         return b"cycle"
+    if isinstance(v, dict) and len(v) <= 64:
+        # small (possibly dynamic) tables: independent of insertion order
+        seen = seen | {id(v)}
+        parts = sorted(_digest_value(k, seen, depth + 1) + b"=" + _digest_value(x, seen, depth + 1) for k, x in v.items())
+        return hashlib.blake2b(b"dict[" + b",".join(parts) + b"]", digest_size=16).digest()
     if isinstance(v, (dict, list, tuple, set, frozenset)):
         try:
             buf = io.BytesIO()
@@ -642,7 +648,13 @@ def classify(op, ref, got) -> str:
         mask = lambda parts: [re.sub(r'(name\\?["\'=: ,(]+)-?\d+', r"\1#", p if isinstance(p, str) else p.decode("latin-1")) for p in parts]
         if mask(ref[1]) == mask(got[1]):
             return "C12/inline-image-name-from-id"
-    return f"C12/history-dependent:{doc}:{kind}"
+    return f"C12/history-dependent:{doc}"
+
+
+def classify_il(d, c, ref, g) -> str:
+    if classify((d, "pages", c, None), (ref[0], ref[1]), (g[0], g[1])) == "C12/inline-image-name-from-id":
+        return "C12/inline-image-name-from-id"
+    return f"C12/interleaving-changes-result:{d}"
 
 
 def classify_singles(d, k, w, joined) -> str:
@@ -739,8 +751,13 @@ def shard_ref(st):
 
 
 # ------------------------------------------------------------------------- bfs shard
-def _expand(hist):
+def bfs_ops(tier):
+    return OPS if tier == "thorough" else [o for o in OPS if o[3] is None]
+
+
+def _expand(args):
     """Child: replay ``hist``, then try every operation in a grandchild; returns [(digest, result-hash, result|None)]."""
+    hist, ops = args
     install_id("asc")
     for op in hist:
         run_op(op)
@@ -751,7 +768,7 @@ def _expand(hist):
         ok = got == R[op]
         return (state_digest(), rhash(got), None if ok else got)
 
-    return fork_map(one, OPS, par=8)
+    return fork_map(one, ops, par=8)
 
 
 def _digest_only(hist):
@@ -763,6 +780,7 @@ def _digest_only(hist):
 
 def shard_bfs(st, tier, par=4, cap=8):
     R = refs()
+    ops = bfs_ops(tier)
     root = fork_call(_digest_only, ())
     seen = {root: ()}
     frontier = [()]
@@ -772,10 +790,10 @@ def shard_bfs(st, tier, par=4, cap=8):
         if depth >= cap:
             st.caps.append(f"bfs depth cap {cap} reached with {len(frontier)} unexpanded states")
             break
-        results = [fork_call(_expand, h) for h in frontier]  # one state at a time; its 180 operations run 8 at a time
+        results = [fork_call(_expand, (h, ops)) for h in frontier]  # one state at a time; its operations run 8 at a time
         nxt = []
         for hist, res in zip(frontier, results):
-            for op, (dg, rh, bad) in zip(OPS, res):
+            for op, (dg, rh, bad) in zip(ops, res):
                 st.transitions += 1
                 st.traces += 1
                 st.case(("bfs", hist, op), nontrivial=len(hist) > 0, outcome=rh)
@@ -824,7 +842,8 @@ def _tree(args):
 def shard_tree(st, first, tier):
     R = refs()
     deeper = WHOLE_OPS if tier == "thorough" else None
-    res = fork_call(_tree, ((first,), OPS, deeper))
+    follow = OPS if tier == "thorough" else [o for o in OPS if o[2] or o[3] is None]
+    res = fork_call(_tree, ((first,), follow, deeper))
     n = 0
     for hist, op, rh, bad in res:
         st.transitions += 1
@@ -867,19 +886,19 @@ def schedules():
 def shard_interleave(st, da, db):
     R = refs([(d, "pages", c, None) for d in (da, db) for c in (True, False)])
     first = True
-    for ca, cb in ((True, True), (False, False)):
+    for ca, cb in (((True, True), (False, False), (True, False)) if da == db else ((True, True),)):
+        st.states += len({sc[:k] for sc in schedules() for k in range(7)})  # nodes of the schedule tree
         if True:
             for sched in schedules():
                 ga, gb = fork_call(_interleave, ((da, ca), (db, cb), sched))
                 st.transitions += 6
-                st.states += 6
                 st.traces += 1
                 st.case(("il", da, ca, db, cb, sched), nontrivial=sched not in ("AAABBB", "BBBAAA"), outcome=rhash((ga, gb)))
                 for who, d, c, g in (("A", da, ca, ga), ("B", db, cb, gb)):
                     ref = R[(d, "pages", c, None)]
                     if (g[0], g[1]) != (ref[0], ref[1]):
                         fd = first_diff(ref, g)
-                        st.violation(f"C12/interleaving-changes-result:{d}", {"family": "interleave", "docs": {da: pool()[da], db: pool()[db]},
+                        st.violation(classify_il(d, c, ref, g), {"family": "interleave", "docs": {da: pool()[da], db: pool()[db]},
                                      "a": [da, ca], "b": [db, cb], "schedule": sched, "which": who},
                                      fd.get("expected", fd), fd.get("observed", fd), f"iterator {who} of schedule {sched} yields other pages than alone")
                 if first:
@@ -888,7 +907,7 @@ def shard_interleave(st, da, db):
 
 
 # --------------------------------------------------------------------- idorder shards
-FLOWS = {"quick": (0.5, -0.5, None), "thorough": (0.5, -0.5, 0.0, None)}
+FLOWS = {"quick": (0.5, None), "thorough": (0.5, -0.5, 0.0, None)}
 
 
 def _idrun(args):
@@ -1009,7 +1028,7 @@ def replay(case):
             ref = fork_call(_replay_history, (case["docs"], [], (d, "pages", c, None)))
             if (g[0], g[1]) != (ref[0], ref[1]):
                 fd = first_diff(ref, g)
-                out.append({"signature": f"C12/interleaving-changes-result:{d}", "expected": jenc(fd.get("expected", fd)), "observed": jenc(fd.get("observed", fd))})
+                out.append({"signature": classify_il(d, c, ref, g), "expected": jenc(fd.get("expected", fd)), "observed": jenc(fd.get("observed", fd))})
     elif fam == "idorder":
         a = fork_call(_idrun, (case["pdf"], "asc", case["boxes_flow"]))
         b = fork_call(_idrun, (case["pdf"], "desc", case["boxes_flow"]))
